@@ -165,7 +165,7 @@ def configs(mp, mkw, mperm):
     return out
 
 
-CONFIGS = {"quick": configs(2, 1, 2), "thorough": configs(3, 2, 6)}
+CONFIGS = {"quick": configs(2, 1, 2), "thorough": configs(3, 2, 2)}
 
 
 def config_idx(style, first, tier, c, active):
@@ -282,15 +282,19 @@ def obligations(tier, seed):
             if tier == "quick" and (style + first) % 3 == 2:
                 continue
             N = len(CONFIGS[tier])
-            obs.append(Ob(
-                name="config_s%d_f%d" % (style, first), params=[("c", "int")], pre=["0 <= c < %d" % N],
-                body="H.config_idx(%d, %d, %r, c, {ACTIVE})" % (style, first, tier), witness=(CONFIGS[tier].index((2, 1, 1, 1, 0, 7, 0)),),
-                kind="F",
-                bounds="style %s, first arg %s; all %d configuration vectors (npos<=%d with every count of right-aligned defaults, <=%d keyword-only "
-                "with every default mask, **kw yes/no, every documented subset, first %d documentation orders); values concrete"
-                % (("rest", "numpydoc", "google")[style], (None, "self", "cls")[first], N, mp, 1 if tier == "quick" else 2,
-                   2 if tier == "quick" else 6),
-                timeout=240 if tier == "quick" else 1800, path_timeout=100, funcs=FUNCS))
+            chunks = 1 if tier == "quick" else 12   # the cost of realising the index grows with the range: keep ranges <= ~500
+            wit = CONFIGS[tier].index((2, 1, 1, 1, 0, 7, 0))
+            for ch in range(chunks):
+                lo, hi = N * ch // chunks, N * (ch + 1) // chunks
+                obs.append(Ob(
+                    name="config_s%d_f%d%s" % (style, first, "" if chunks == 1 else "_%d" % ch), params=[("c", "int")],
+                    pre=["%d <= c < %d" % (lo, hi)],
+                    body="H.config_idx(%d, %d, %r, c, {ACTIVE})" % (style, first, tier), witness=(wit if lo <= wit < hi else lo,),
+                    kind="F",
+                    bounds="style %s, first arg %s; configuration vectors %d..%d of %d (npos<=%d with every count of right-aligned defaults, <=%d "
+                    "keyword-only with every default mask, **kw yes/no, every documented subset, first 2 documentation orders); values concrete"
+                    % (("rest", "numpydoc", "google")[style], (None, "self", "cls")[first], lo, hi - 1, N, mp, 1 if tier == "quick" else 2),
+                    timeout=240 if tier == "quick" else 900, path_timeout=100, funcs=FUNCS))
     for style in range(3):
         for nd, kwmask, documented in ((1, 1, ("a", "b", "c", "k", "m")), (2, 2, ("a",)), (3, 3, ()), (0, 0, ("a", "b"))):
             if tier == "quick" and (style + nd) % 2:
